@@ -725,6 +725,12 @@ class C01(Check):
         self.spec = spec_parser.load(os.path.join(common.LEAN, "PoxModel", "Spec", "OF10Layouts.lean"))
         self.nxspec = spec_parser.load(os.path.join(common.LEAN, "PoxModel", "Spec", "NXLayouts.lean"), base=self.spec)
         self._rec_cache = {}
+        # the stream reader's dispatch (of_01.Connection.read: `unpackers[type](buf, offset)`): a table made the way of_01 makes
+        # its own, with the Nicira vendor unpacker in the vendor slot as nicira.launch() puts it there
+        from pox.openflow.util import make_type_to_unpacker_table
+        self.unpackers = make_type_to_unpacker_table()
+        if nx._old_unpacker is None: nx._old_unpacker = self.unpackers[of.OFPT_VENDOR]
+        self.unpackers[of.OFPT_VENDOR] = nx._unpack_nx_vendor
         for cname, (fixed, _) in self.spec["table"].items():          # string fields and their widths: from the standard's structures
             w = {f[1]: f[2] for f in fixed if f[0] == "zstr"}
             if w: ZS_WIDTH[cname] = w
@@ -891,6 +897,7 @@ class C01(Check):
         if kind == "reuse": return self.impl_reuse(case)
         if kind == "seq": return self.impl_seq(case)
         if kind == "conv": return self.impl_conv(case)
+        if kind == "nxm_form": return self.impl_nxm_form(case)
         self.B.zs_bytes = case.get("zs") == "bytes"
         try: return self.impl_obj(case)
         finally: self.B.zs_bytes = False
@@ -1372,6 +1379,60 @@ class C01(Check):
                 return "result depends on the object's history: %s gives %s…, a fresh object of that value gives %s…" % (what, a[:28], b[:28])
         return None
 
+    def default_offset_calls(self, o, b):
+        """every decode entry point that has a default for `offset`, called without it: must be the call with offset 0
+        (unpack / unpack_new of the class, ofp_header.unpack on a message, the module's _unpack_* list helpers)"""
+        import inspect
+        of = self.of
+        out = []
+        def has_default(f):
+            try: p = inspect.signature(f).parameters.get("offset")
+            except (TypeError, ValueError): return False
+            return p is not None and p.default is not inspect.Parameter.empty
+        def both(what, f0, f1, view):
+            try: a = view(f0())
+            except Exception as e: a = "raise:" + type(e).__name__
+            try: c = view(f1())
+            except Exception as e: c = "raise:" + type(e).__name__
+            out.append([what, a, c])
+        raw = b + TRAILER
+        cls = type(o)
+        if self.kind(o) != "stats":
+            def inst(offset_given):
+                x = cls(); r = x.unpack(raw, 0) if offset_given else x.unpack(raw)
+                return [r[0] if isinstance(r, tuple) else r, x.pack().hex()]
+            if has_default(cls.unpack): both("%s().unpack(raw)" % cls.__name__, lambda: inst(False), lambda: inst(True), lambda v: v)
+            un = getattr(cls, "unpack_new", None)
+            if un is not None and has_default(un):
+                both("%s.unpack_new(raw)" % cls.__name__, lambda: un(raw), lambda: un(raw, 0), lambda r: [r[0], r[1].pack().hex()])
+        if isinstance(o, of.ofp_header) and has_default(of.ofp_header.unpack):
+            both("ofp_header.unpack(raw)", lambda: of.ofp_header.unpack(of.ofp_header(), raw), lambda: of.ofp_header.unpack(of.ofp_header(), raw, 0), lambda r: list(r))
+        for attr, fname in (("actions", "_unpack_actions"), ("properties", "_unpack_queue_props")):
+            lst = getattr(o, attr, None); f = getattr(of, fname, None)
+            if isinstance(lst, (list, tuple)) and f is not None and has_default(f):
+                eb = b"".join(e.pack() for e in lst)
+                both("%s(raw, length)" % fname, lambda: f(eb + TRAILER, len(eb)), lambda: f(eb + TRAILER, len(eb), 0), lambda r: [r[0], [e.pack().hex() for e in r[1]]])
+        return out
+
+    def dispatch_calls(self, o, b, off):
+        """the message decoded the way the connection does it: by the unpacker registered for its header type, at offset 0 and
+        inside a larger buffer"""
+        import io, contextlib
+        t = b[1]; res = []
+        for n in (0, off):
+            pre = bytes((5 * i + 3) & 0xff for i in range(n))
+            try:
+                with contextlib.redirect_stdout(io.StringIO()):
+                    new, m = self.unpackers[t](pre + b + TRAILER, n)
+                res.append({"cls": type(m).__name__, "consumed": new - n, "repack": m.pack().hex() == b.hex(),
+                            "eq": bool(m == o) if type(m) is type(o) else None})
+            except Exception as e:
+                res.append({"raise": type(e).__name__})
+        return res
+
+    # classes the switch sends and the connection must hand to the application as themselves
+    NX_DISPATCHED = {"nxt_packet_in", "nx_role_reply"}
+
     def impl_conv(self, case):
         """calling conventions: unpack at a non-zero offset behind other bytes, from a bytearray; Ethernet addresses given as
         6 raw bytes and action lists as tuples — each must give what the plain call gives"""
@@ -1396,6 +1457,8 @@ class C01(Check):
             pre = bytes((7 * i + 1) & 0xff for i in range(n))
             res["offset"][str(n)] = rt(pre + b + TRAILER, n)
         res["bytearray"] = rt(bytearray(b + TRAILER), 0)
+        res["default_offset"] = self.default_offset_calls(o, b)
+        if isinstance(o, self.of.ofp_header): res["dispatch"] = self.dispatch_calls(o, b, offs[-1])
         try:
             B.alt = True
             res["alt_forms"] = B.build(case["spec"]).pack().hex() == b.hex()
@@ -1414,6 +1477,15 @@ class C01(Check):
             if "raise" in r: return "unpack (%s) raises %s behind %s bytes where the plain call succeeds" % (k, r["raise"], off)
             if r["consumed"] != n: return "unpack (%s) behind %s bytes consumed %s of %d bytes" % (k, off, r["consumed"], n)
             if not r["eq"] or not r["repack"]: return "unpack (%s) behind %s bytes yields a different object than the plain call" % (k, off)
+        for what, a, c in obs["conv"].get("default_offset", []):
+            if a != c: return "unpack (default-offset) %s gives %s, with offset 0 given it gives %s" % (what, str(a)[:60], str(c)[:60])
+        cls = obs["cls"]; code = int(obs["pack"][2:4] or "0", 16)
+        for r in obs["conv"].get("dispatch", []):
+            if "raise" in r: return "unpack (dispatch) by the unpacker of header type %d raises %s" % (code, r["raise"])
+            want = cls if (code == 4 and cls in self.NX_DISPATCHED) else self.spec["messageClass"].get(code)
+            if r["cls"] != want: return "unpack (dispatch) by the unpacker of header type %d yields a %s, the registered class is %s" % (code, r["cls"], want)
+            if r["consumed"] != n or not r["repack"] or r["eq"] is False:
+                return "unpack (dispatch) by the unpacker of header type %d yields a different message (consumed %s of %d)" % (code, r["consumed"], n)
         if obs["conv"]["alt_forms"] is not True:
             return "pack differs when Ethernet addresses are given as raw bytes / actions as a tuple (%s)" % obs["conv"]["alt_forms"]
         return None
@@ -1524,6 +1596,7 @@ class C01(Check):
         if kind == "reuse": return self.oracle_reuse(case, obs)
         if kind == "seq": return self.oracle_seq(case, obs)
         if kind == "conv": return self.oracle_conv(case, obs)
+        if kind == "nxm_form": return self.oracle_nxm_form(case, obs)
         if kind == "stale":
             if obs.get("pack") is None: return "pack raises %s" % obs.get("outcome")
             if obs["body_on_wire"] != obs["body_set"]: return "stale body: pack() after assigning a new body still sends the old one"
@@ -1552,7 +1625,16 @@ class C01(Check):
         if kind == "match":
             # what the code guarantees for every match: the decoded object is the original with prerequisite-less
             # fields removed (fix()); for normal matches that is the original itself
+            w0 = obs["state"]["wildcards"]; in_range = ((w0 >> 8) & 63) <= 32 and ((w0 >> 14) & 63) <= 32
+            # address wildcard counts: 32..63 all mean "ignore"; whatever is on the wire reads back as min(32, count) (plain mode)
+            ww = int(obs["pack"][0:8], 16); w2 = (obs.get("state2") or {}).get("wildcards")
+            if isinstance(w2, int):
+                for sh, nm in ((8, "nw_src"), (14, "nw_dst")):
+                    got = (w2 >> sh) & 63; sent = (ww >> sh) & 63
+                    if got > 32 or (not case.get("flow_mod") and got != min(32, sent)):
+                        return "match read back with %s wildcard count %d where the wire says %d (counts above 32 read as 32)" % (nm, got, sent)
             if case.get("flow_mod"):
+                if not in_range: return None               # match_roundtrip_fm speaks about counts <= 32 (InRange)
                 if obs.get("eq_fixed") is not True: return "flow_mod match: unpack(pack(m)) != fix(m)"
                 if obs.get("normal") and obs.get("eq") is not True: return "normal match: unpack(pack(m)) != m"
             elif obs.get("normal") and obs.get("eq") is not True: return "normal match: unpack(pack(m)) != m"
@@ -1708,6 +1790,8 @@ class C01(Check):
         if f.startswith("unpack (") or f.startswith("pack differs when"): return "%s:calling-convention:%s" % (cls, f.split("(")[1].split(")")[0] if f.startswith("unpack") else "alt-forms")
         if f.startswith("pack accepts a string"): return "%s:pack:accepts-unrepresentable-string" % cls
         if f.startswith("string field"): return "%s:roundtrip:string-differs" % cls
+        if f.startswith("match read back with"): return "%s:unpack:wildcard-count" % cls
+        if f.startswith("entry given as"): return "%s:forms:%s" % (cls, case.get("form"))
         if f.startswith("== holds between"): return "%s:eq:ignores-specs" % cls
         if f.startswith("decoded flow_mod_specs"): return "%s:roundtrip:specs-differ" % cls
         if "!=" in f: return "%s:roundtrip:not-equal" % cls
@@ -1804,6 +1888,65 @@ class C01(Check):
             out.append(self.obj({"cls": "nx_action_bundle", "kw": dict(algorithm=k % 2, fields=(k // 2) % 2, basis=rint(rng, U16), slaves=list(sl))}))
             out.append(self.obj({"cls": "nx_action_bundle", "kw": dict(load=True, dst={"nxmcls": "NXM_NX_REG%d" % (k % 8)}, nbits=rng.randint(1, 32), offset=k % 3, slaves=list(sl))}))
         return out
+
+    NXM_FORMS = ["mask_int", "tuple_int", "tuple_mask", "cidr_str", "netmask_str", "with_mask_attr", "mask_attr_int"]
+
+    def nxm_form_cases(self, rng):
+        """the address entries' documented ways of giving a network: (address, prefix length), (address, netmask), "a/len",
+        "a/netmask", mask = prefix length — every prefix length, every IPv4 / IPv6 NXM type; all must give the entry the plain
+        (address, mask address) form gives, which is laid out here by hand"""
+        out = []
+        for name in NXM_IP + NXM_IP6:
+            full = 8 * NXM_LEN[name][0]
+            for i, p in enumerate(range(0, full + 1)):
+                if full == 128 and p % 8 not in (0, 1, 7) and p not in (63, 65): continue
+                a = rng.getrandbits(full) | (1 << (full - 1))
+                out.append({"kind": "nxm_form", "name": name, "addr": a, "prefix": p, "form": self.NXM_FORMS[(i + len(name)) % len(self.NXM_FORMS)]})
+            for form in self.NXM_FORMS:
+                for p in (1, full // 2, full - 1, full):
+                    out.append({"kind": "nxm_form", "name": name, "addr": rng.getrandbits(full), "prefix": p, "form": form})
+        return out
+
+    def impl_nxm_form(self, case):
+        nx = self.nx
+        name, p, form = case["name"], case["prefix"], case["form"]
+        c = getattr(nx, name); ln = c._nxm_length; full = 8 * ln
+        maskn = ((1 << full) - 1) ^ ((1 << (full - p)) - 1)
+        a = case["addr"] & maskn
+        A = (lambda n: self.IPAddr6(n.to_bytes(16, "big"), raw=True)) if ln == 16 else (lambda n: self.IPAddr(n.to_bytes(4, "big")))
+        out = {"cls": name}
+        # by hand (nicira-ext.h): header = type << 9 | hasmask << 8 | payload length; value; mask.  An all-ones mask is no mask.
+        has = p < full
+        out["want"] = (struct.pack("!L", (c._nxm_type << 9) | (int(has) << 8) | (ln * (2 if has else 1))) + a.to_bytes(ln, "big") + (maskn.to_bytes(ln, "big") if has else b"")).hex()
+        try: out["plain"] = c(A(a), A(maskn)).pack().hex()
+        except Exception as e: out["plain"] = "raise:" + type(e).__name__
+        try:
+            if form == "mask_int": o = c(A(a), p)
+            elif form == "tuple_int": o = c((A(a), p))
+            elif form == "tuple_mask": o = c((A(a), A(maskn)))
+            elif form == "cidr_str": o = c("%s/%d" % (A(a), p))
+            elif form == "netmask_str":
+                if ln == 16: out["pack"] = None; out["skip"] = "IPv4 only"; return out
+                o = c("%s/%s" % (A(a), A(maskn)))
+            elif form in ("with_mask_attr", "mask_attr_int"):
+                m = nx.nx_match()
+                if form == "with_mask_attr": setattr(m, name + "_with_mask", (A(a), p))
+                else: setattr(m, name, A(a)); setattr(m, name + "_mask", p)
+                o = m
+            else: raise KeyError(form)
+            out["pack"] = o.pack().hex()
+        except Exception as e:
+            out["pack"] = None; out["outcome"] = "raise:%s: %s" % (type(e).__name__, str(e)[:80])
+        return out
+
+    def oracle_nxm_form(self, case, obs):
+        if obs.get("skip"): return None
+        if obs.get("pack") is None: return "entry given as %s raises %s" % (case["form"], obs.get("outcome", "?")[6:])
+        if 0 < case["prefix"] and obs["pack"] != obs["want"]:
+            return "entry given as %s (prefix %d) packs to %s…, the /%d network is %s…" % (case["form"], case["prefix"], obs["pack"][:24], case["prefix"], obs["want"][:24])
+        if obs["pack"] != obs.get("plain"):
+            return "entry given as %s (prefix %d) packs differently from the (address, mask address) form" % (case["form"], case["prefix"])
+        return None
 
     STREAM_OFFSETS = [8, 12, 24, 64, 780]
 
@@ -1944,6 +2087,13 @@ class C01(Check):
                                 cases.append({"kind": "match", "spec": {"cls": "ofp_match", "kw": kw}, "flow_mod": fm})
         for w in (0, 0x3fffff, 0x3f << 8, 0x3f << 14, 33 << 8, 32 << 14, 1 << 21, 1 << 20, 0xffffffff):
             cases.append({"kind": "match", "spec": ofgen.match(rng), "wildcards": w, "flow_mod": False})
+        # the 6-bit address wildcard counts: every value on the wire (32..63 all mean "ignore the address" and read back as 32)
+        for v in range(64):
+            for sh in (8, 14):
+                for fm in (False, True):
+                    cases.append({"kind": "match", "spec": {"cls": "ofp_match", "kw": {"dl_type": 0x800, "nw_proto": 6, "nw_src": ["0a010203", 32], "nw_dst": ["0a010204", 32]}},
+                                  "wildcards": (v << sh) | ((5 << (22 - sh)) if v % 2 else 0), "flow_mod": fm})
+        cases += self.nxm_form_cases(rng)
         # every NXM type, unmasked and (where allowed) masked
         for name in NXM_ALL:
             cases.append({"kind": "nxm", "spec": g_nxm(rng, name, masked=False)})
